@@ -253,18 +253,10 @@ func ruleC08(c *Ctx) {
 					hdr = d
 				}
 			}
-			for _, e := range t.St.events {
-				if e.Kind != EvStore {
-					continue
-				}
-				fa, ok := e.Addr.(*FieldAddrV)
-				if !ok || fa.X.Key() != obj.Key() || fa.Name != "Assertions" {
-					continue
-				}
-				if _, isApp := e.Val.(*AppendV); isApp {
-					n++
-					checkAppendFor(c, "C08-R4", t, fname, label, obj, e, hdr)
-				}
+			apps, _, _ := assertionListStores(t, obj, 0)
+			for _, e := range apps {
+				n++
+				checkAppendFor(c, "C08-R4", t, fname, label, obj, e, hdr)
 			}
 			if hdr.Prov == "verified(raw)" {
 				n++
